@@ -178,3 +178,10 @@ PROPS["C08"]["not_covered"] = ["ParseCommand::eval beyond K12's bounds (closures
 PROPS["C08"]["claim"] = PROPS["C08"]["explanation"] = PROPS["C08"]["explanation"] + (
     " ParseCommand::eval is checked by Kani within bounds (K12: command name + 2 items with every ledger; the inner parser is a probe that records the scope it is given): "
     "the subcommand's parser sees exactly the items from the name to the end of the enclosing scope, whatever the enclosing level already claimed; for an adjacent command exactly the available run after the name, and the enclosing scope is handed back.")
+
+PROPS["C09"]["not_covered"] = ["split_os_argument / disambiguate_short (assumed inside State::construct: 'never produce a PosWord')", "State::construct with the autocomplete feature (completion scanner hooks): assumed there", "correspondence of the positional items after `--` with the raw words (only their kind and ledger state are proved)"]
+PROPS["C09"]["claim"] = PROPS["C09"]["explanation"] = (
+    "the tokenizer driver State::construct is proved to implement the separator rule: nothing is a PosWord before the first literal `--`, that `--` itself is the first PosWord and is pre-consumed "
+    "(marked by *item* index, whatever multi-item words precede it), every later item is a PosWord and unconsumed, the ledger is well formed over the whole line. "
+    "Downstream: PosWord never matches a flag/argument name, command or value; take_positional_word reports strict <=> PosWord and delivers the word verbatim; parse_pos_word implements the strictness table; "
+    "StrictPos is final and NonStrictPos catchable.")
